@@ -37,6 +37,21 @@ def run(case):
     index = {}
     tree = M.build(case["tree"], T, index)
     root = case["tree"]["root"]
+    if case.get("pre"):
+        # history on the same tree object: other re-attachments and token edits first; the checked operation is then
+        # judged against the tree as it is at that moment
+        from checks.C12 import apply_pre
+        for step in case["pre"]:
+            if step[0] in OPS:
+                tree = call("C13/pre/" + step[0], getattr(transform, step[0]), tree)
+            else:
+                tree = apply_pre(tree, [step])
+        try:
+            root, seen = M.snapshot(tree)
+        except M.Malformed as bad:
+            raise violation("C13/pre/malformed:" + bad.reason, str(bad))
+        index = {id(n): seen[n["_id"]] for n in M.preorder(root)}
+        case = dict(case, tree={"sid": case["tree"]["sid"], "root": root})
     nodes = list(M.preorder(root))
     rnode = {id(n): index[id(n)] for n in nodes}
     orig_parent = {id(n): rnode[id(n)].parent for n in nodes}
@@ -55,13 +70,12 @@ def run(case):
     if M.sentence(snap) != M.sentence(root):
         raise violation("C13/%s/sentence-changed" % name, "%r" % (M.sentence(snap),))
     moved = [n for n in nodes if rnode[id(n)].parent is not orig_parent[id(n)]]
-    return result, rnode, nodes, moved
+    return result, rnode, nodes, moved, root
 
 
 def check(case):
     name = case["op"]
-    root = case["tree"]["root"]
-    result, rnode, nodes, moved = run(case)
+    result, rnode, nodes, moved, root = run(case)
     toks = M.toks(root)
     new_parent = {id(n): rnode[id(n)].parent for n in nodes}
 
@@ -117,13 +131,16 @@ OPS = ["punctuation_verylow", "punctuation_root", "punctuation_symetrify"]
 
 def gen(ctx):
     quick = ctx.tier == "quick"
+    steps = st.one_of(st.sampled_from(OPS).map(lambda o: [o]), st.tuples(st.just("insert"), st.integers(0, 20), st.sampled_from([",", "(", '"', "x"])).map(list),
+                      st.tuples(st.just("delete"), st.integers(0, 20)).map(list))
     strategy = st.fixed_dictionaries({"op": st.sampled_from(OPS), "tree": trees_strategy(9 if quick else 13),
-                                      "relc": st.sampled_from([None, None, "PRELS"])})
+                                      "relc": st.sampled_from([None, None, "PRELS"]),
+                                      "pre": st.one_of(st.just([]), st.just([]), st.just([]), st.lists(steps, min_size=1, max_size=3))})
 
     def body(case):
         moved = check(case)
         root = case["tree"]["root"]
-        classes = [case["op"] + (":moved" if moved else ":unmoved")]
+        classes = [case["op"] + (":moved" if moved else ":unmoved")] + (["with-history"] if case["pre"] else [])
         for node in M.constituents(root):
             if node is not root and all(M.is_tok(c) and c["w"] in PUNCT for c in node["c"]):
                 classes.append("has-punct-only-constituent:%d" % min(len(node["c"]), 3))
